@@ -84,16 +84,43 @@ def parse_split(s):
     return ("ok", out)
 
 
-def run_impl_split(datasets, reflists):
+REF_FORMS = ("lists", "arrays", "tuples", "ndarray2d", "int32")
+
+
+def as_form(reflists, form):
+    """the reference index lists in one of the container forms the implementation accepts (None: form not applicable)."""
+    rl = [[int(x) for x in r] for r in reflists]
+    if form == "lists":
+        return rl
+    if form == "arrays":
+        return [np.array(r, dtype=np.int64) for r in rl]
+    if form == "tuples":
+        return tuple(tuple(r) for r in rl)
+    if form == "int32":
+        return [np.array(r, dtype=np.int32) for r in rl]
+    if form == "ndarray2d":
+        if not rl or len(set(len(r) for r in rl)) != 1 or len(rl[0]) == 0:
+            return None
+        return np.array(rl, dtype=np.int64)
+    raise ValueError(form)
+
+
+def refs_intact(given, reflists):
+    try:
+        return len(given) == len(reflists) and all([int(x) for x in g] == [int(x) for x in r] for g, r in zip(given, reflists))
+    except Exception:  # noqa: BLE001
+        return False
+
+
+def run_impl_split(datasets, reflists, form="lists"):
     """-> (result, arguments intact after the call)"""
-    given_d, given_r = [d.copy() for d in datasets], [list(r) for r in reflists]
+    given_d, given_r = [d.copy() for d in datasets], as_form(reflists, form)
     try:
         Y = gen.pre_multisetup(given_d, given_r)
         out = ("ok", [(np.array(s["ref"]), np.array(s["mov"])) for s in Y])
     except Exception as e:  # noqa: BLE001 - the kind is part of what is compared
         out = (type(e).__name__,)
-    intact = (len(given_d) == len(datasets) and all(same_array(a, b) for a, b in zip(given_d, datasets))
-              and given_r == [list(r) for r in reflists])
+    intact = (len(given_d) == len(datasets) and all(same_array(a, b) for a, b in zip(given_d, datasets)) and refs_intact(given_r, reflists))
     return out, intact
 
 
@@ -199,6 +226,19 @@ def part_split(ctx, corpus):
         ctx.count(case, nontrivial=nontrivial)
         ctx.hist("split_result", model[0])
         check_split_case(ctx, case, ds, rl, impl, model)
+        # the same reference lists in every other accepted container form: the same split
+        if len(rl) >= len(ds) and all(valid_refs(d.shape[1], r) for d, r in zip(ds, rl)):
+            for form in REF_FORMS[1:]:
+                if as_form(rl, form) is None:
+                    continue
+                case_f = dict(case, ref_form=form)
+                impl_f, intact_f = run_impl_split(ds, rl, form)
+                ctx.count(case_f, nontrivial=nontrivial)
+                ctx.hist("split_ref_form", form)
+                if not intact_f:
+                    ctx.fail("oracle", "pre_multisetup changes the datasets / reference lists it is given (reference lists as %s)" % form, case_f,
+                             key="C03:pre_multisetup:mutates-input")
+                check_split_case(ctx, case_f, ds, rl, impl_f, model)
     ctx.sample(dict(kind="split", datasets=cases[-1][0]["datasets"], refs=cases[-1][0]["refs"]))
 
 
@@ -244,7 +284,11 @@ def part_class_data(ctx):
         ctx.hist("class_ops", "+".join(o for o, _ in ops))
         orig = [d.copy() for d in ds]
         try:
-            ms = MultiSetup_PreGER(fs=fs, ref_ind=[list(r) for r in rl], datasets=[d.copy() for d in ds])
+            forms = [f for f in REF_FORMS if as_form(rl, f) is not None]
+            form = forms[j % len(forms)]
+            case["ref_form"] = form
+            ctx.hist("class_ref_form", form)
+            ms = MultiSetup_PreGER(fs=fs, ref_ind=as_form(rl, form), datasets=[d.copy() for d in ds])
         except Exception as e:  # noqa: BLE001
             ctx.fail("oracle", "MultiSetup_PreGER construction raises %s on valid input" % type(e).__name__, case, key="C03:PreGER.data:init")
             continue
@@ -677,30 +721,52 @@ def e2e_object(ctx, spec, methods, order_k):
             ok = False
         return ok
 
-    def judge(alg, name, method, brr, what):
+    def judge(alg, name, method, brr, what, perm):
+        """triple k of the result must be ONE global mode: the one requested at position k (perm[k])."""
         r = alg.result
         Fn, Xi, Ph = np.asarray(r.Fn), np.asarray(r.Xi), np.asarray(r.Phi)
+        cs = dict(case, step=what, mpe_order=perm)
         if Fn.shape != (m,) or Xi.shape != (m,) or Ph.shape != (Phi.shape[0], m):
             ctx.fail("oracle", "%s: result.Fn/Xi/Phi have shapes %s %s %s for %d modes and %d sensors" % (what, Fn.shape, Xi.shape, Ph.shape, m, Phi.shape[0]),
-                     dict(case, step=what), key="C03:e2e:shape")
+                     cs, key="C03:e2e:shape")
             return
         tol = case_tol(spec, Y0, brr, method)
         if tol > TOL_CAP:
             ctx.not_judged += 1
             return
-        for i in range(m):
-            efn = abs(Fn[i] - spec["fn"][i]) / spec["fn"][i]
-            exi = abs(Xi[i] - spec["xi"][i]) / spec["xi"][i]
-            mc = mac(Ph[:, i], Phi[:, i])
+        for k, i in enumerate(perm):
+            efn = abs(Fn[k] - spec["fn"][i]) / spec["fn"][i]
+            exi = abs(Xi[k] - spec["xi"][i]) / spec["xi"][i]
+            mc = mac(Ph[:, k], Phi[:, i])
             if not (efn <= tol and exi <= tol and mc >= 1 - tol):
-                ctx.fail("oracle", "%s: mode %d: fn %.6g -> %.6g (err %.2e), xi %.6g -> %.6g (err %.2e), 1-MAC %.2e against the global system "
-                         "(gains 2^%s, tolerance %.1e)" % (what, i, spec["fn"][i], Fn[i], efn, spec["xi"][i], Xi[i], exi, 1 - mc, spec["gexp"], tol),
-                         dict(case, step=what), key="C03:e2e:modes" if what.startswith("first") else "C03:e2e:modes-repeat")
+                f_of = int(np.argmin([abs(Fn[k] - f) for f in spec["fn"]]))
+                s_of = int(np.argmax([mac(Ph[:, k], Phi[:, q]) for q in range(m)]))
+                mixed = f_of != s_of and abs(Fn[k] - spec["fn"][f_of]) / spec["fn"][f_of] <= 1e-3 and mac(Ph[:, k], Phi[:, s_of]) >= 1 - 1e-3
+                ctx.fail("oracle", "%s, modes requested in the order %s: position %d (global mode %d requested): fn %.6g -> %.6g (err %.2e), xi %.6g -> %.6g "
+                         "(err %.2e), 1-MAC %.2e against the global system (gains 2^%s, tolerance %.1e)%s"
+                         % (what, perm, k, i, spec["fn"][i], Fn[k], efn, spec["xi"][i], Xi[k], exi, 1 - mc, spec["gexp"], tol,
+                            "; Fn[k] is global mode %d but Phi[:, k] is global mode %d: the triple mixes two modes" % (f_of, s_of) if mixed else ""),
+                         cs, key="C03:e2e:modes-mixed" if mixed else ("C03:e2e:modes" if what.startswith("first") else "C03:e2e:modes-repeat"))
                 return
 
+    # request orders: ascending, descending, rotated, zig-zag (identical for one mode)
+    asc = list(range(m))
+    rev = asc[::-1]
+    rot = asc[1:] + asc[:1]
+    zig = [x for pair in zip(rev, asc) for x in pair][:m]
+    first_order = [int(x) for x in spec["mpe_order"]] if spec.get("mpe_order") else (asc if order_k % 2 == 0 else rev)
+    orders = [first_order, rev if first_order == asc else rot]
+
+    def request(nm, perm):
+        ms.mpe(nm, sel_freq=[float(spec["fn"][i]) for i in perm], order=2 * m)
+
+    forms = [f for f in REF_FORMS if as_form(spec["pos"], f) is not None]
+    form = forms[order_k % len(forms)]
+    case["ref_form"] = form
+    ctx.hist("e2e_ref_form", form)
     step = "construction"
     try:
-        ms = MultiSetup_PreGER(fs=spec["fs"], ref_ind=[list(p) for p in spec["pos"]], datasets=datasets)
+        ms = MultiSetup_PreGER(fs=spec["fs"], ref_ind=as_form(spec["pos"], form), datasets=datasets)
         intact(ms, step)
         names = ["a", "b"][:len(methods)]
         algs = {nm: make(nm, me, br) for nm, me in zip(names, methods)}
@@ -711,26 +777,29 @@ def e2e_object(ctx, spec, methods, order_k):
         ms.run_all()
         intact(ms, step)
         first = (names if order_k % 2 == 0 else names[::-1])[0]
-        for nm, me in zip(names, methods):
+        for nm, me, perm in zip(names, methods, orders):
             step = "mpe(%s)" % cls_of[me]
-            ms.mpe(nm, sel_freq=[float(f) for f in spec["fn"]], order=2 * m)
+            request(nm, perm)
             intact(ms, step)
-            judge(algs[nm], nm, me, br, "%s identification on the object: %s, br=%d" % ("first" if nm == first else "second", cls_of[me], br))
+            ctx.hist("mpe_order", "ascending" if perm == asc else "non-ascending")
+            judge(algs[nm], nm, me, br, "%s identification on the object: %s, br=%d" % ("first" if nm == first else "second", cls_of[me], br), perm)
         # another identification on the same object and the same split data: one more block row
         me3 = methods[-1] if order_k % 2 == 0 else methods[0]
         step = "run_by_name(%s, br+1)" % cls_of[me3]
         c = make("c", me3, br + 1)
         ms.add_algorithms(c)
         ms.run_by_name("c")
-        ms.mpe("c", sel_freq=[float(f) for f in spec["fn"]], order=2 * m)
+        request("c", rot)
         intact(ms, step)
-        judge(c, "c", me3, br + 1, "later identification on the same object: %s, br=%d" % (cls_of[me3], br + 1))
+        ctx.hist("mpe_order", "ascending" if rot == asc else "non-ascending")
+        judge(c, "c", me3, br + 1, "later identification on the same object: %s, br=%d" % (cls_of[me3], br + 1), rot)
         # and the first algorithm once more
         step = "re-run(%s)" % cls_of[methods[0]]
         ms.run_by_name("a")
-        ms.mpe("a", sel_freq=[float(f) for f in spec["fn"]], order=2 * m)
+        request("a", zig)
         intact(ms, step)
-        judge(algs["a"], "a", methods[0], br, "re-run on the same object: %s, br=%d" % (cls_of[methods[0]], br))
+        ctx.hist("mpe_order", "ascending" if zig == asc else "non-ascending")
+        judge(algs["a"], "a", methods[0], br, "re-run on the same object: %s, br=%d" % (cls_of[methods[0]], br), zig)
     except Exception as e:  # noqa: BLE001
         ctx.fail("oracle", "MultiSetup_PreGER + %s: %s raises %s on noise-free records" % ("/".join(cls_of[x] for x in methods), step, type(e).__name__),
                  dict(case, step=step), key="C03:e2e:raises")
@@ -750,6 +819,8 @@ def run(ctx):
                          "non-trivial = valid list on >= 2 channels; SSI: one global system (modes, shapes, x0, gains 2^k, reference positions) "
                          "per case, both methods, every case identified repeatedly on the same split data / the same object (inputs must stay bit-equal), "
                          "one case in four with one mode 10^-2..10^-6 weaker in a later setup (tolerance 1000 eps kappa(H), not judged above 2e-2); "
+                         "reference index lists in every accepted container form (lists, int64/int32 arrays, tuples, 2-D array); mpe requests in ascending, "
+                         "descending, rotated and zig-zag order (triple k = the mode requested at position k); "
                          "non-trivial = always (>= 2 setups, gains differ); distinct by hash of the full spec")
     ctx.assumptions += [
         "oracle contracts (hypotheses of C03_identifies_global_partial): np.linalg.svd per setup delivers Obs_k = O_k T_k with T_k right-invertible "
